@@ -403,3 +403,490 @@ Proof.
   replace (f2r o1 - f2r o2) with ((f2r o1 - M) + - (f2r o2 - M)) by ring.
   eapply Rle_trans; [apply Rabs_triang|]. rewrite Rabs_Ropp. unfold Rdiv in *. lra.
 Qed.
+
+(* ===================================================================================================== *)
+(* (2) exactness on a dyadic grid for the power sums of the moment accumulator                           *)
+(* ===================================================================================================== *)
+(* ---- (2a) reals: powers of grid points ------------------------------------------------------------- *)
+Lemma grid_mult a b x y : grid a x -> grid b y -> grid (a + b) (x * y).
+Proof. intros (m & ->) (n & ->). exists (m * n)%Z. rewrite mult_IZR, bpow_plus. ring. Qed.
+
+Lemma grid_pow e x k : grid e x -> grid (Z.of_nat k * e) (x ^ k).
+Proof.
+  intros G. induction k as [|k IH].
+  - exists 1%Z. cbn [pow Z.of_nat Z.mul bpow]. ring.
+  - replace (Z.of_nat (S k) * e)%Z with (e + Z.of_nat k * e)%Z by lia. cbn [pow]. apply grid_mult; assumption.
+Qed.
+
+Lemma grid_sumR g l : Forall (grid g) l -> grid g (sumR l).
+Proof.
+  induction 1 as [|a l Ha _ IH]; [apply grid_0|]. rewrite sumR_cons. apply grid_plus; assumption.
+Qed.
+Lemma grid_psum e k l : Forall (grid e) l -> grid (Z.of_nat k * e) (psum k l).
+Proof.
+  intros H. unfold psum. apply grid_sumR. apply Forall_map. eapply Forall_impl; [|exact H].
+  intros a Ha. apply grid_pow, Ha.
+Qed.
+
+Lemma bpow_nat_mul e n : bpow radix2 e ^ n = bpow radix2 (Z.of_nat n * e).
+Proof.
+  induction n as [|n IH]; [reflexivity|].
+  replace (Z.of_nat (S n) * e)%Z with (e + Z.of_nat n * e)%Z by lia. rewrite bpow_plus, <- IH. reflexivity.
+Qed.
+
+(* sum of |x^k| *)
+Definition spow (k : nat) (l : list R) : R := sumabs (map (fun x => x ^ k) l).
+
+Lemma spow_nonneg k l : 0 <= spow k l.
+Proof. apply sumabs_nonneg. Qed.
+Lemma spow_cons k x l : spow k (x :: l) = Rabs (x ^ k) + spow k l.
+Proof. reflexivity. Qed.
+Lemma spow_app k l1 l2 : spow k (l1 ++ l2) = spow k l1 + spow k l2.
+Proof. unfold spow. rewrite map_app. apply sumabs_app. Qed.
+Lemma psum_le_spow k l : Rabs (psum k l) <= spow k l.
+Proof. apply sumR_le_sumabs. Qed.
+
+(* an integer is 0 or at least 1 in magnitude: lower powers are dominated by higher ones *)
+Lemma int_pow_le (m : Z) (k K : nat) : (1 <= k <= K)%nat -> Rabs (IZR m) ^ k <= Rabs (IZR m) ^ K.
+Proof.
+  intros Hk. destruct (Z.eq_dec m 0) as [->|Hm].
+  - rewrite Rabs_R0, !pow_ne_zero by lia. lra.
+  - apply Rle_pow; [|lia]. rewrite <- abs_IZR. apply (IZR_le 1). lia.
+Qed.
+
+Lemma grid_pow_le e x k K :
+  (1 <= k <= K)%nat -> grid e x -> Rabs (x ^ k) * bpow radix2 e ^ (K - k) <= Rabs (x ^ K).
+Proof.
+  intros Hk (m & ->). pose proof (bpow_gt_0 radix2 e) as Ht. set (t := bpow radix2 e) in *.
+  rewrite !Rpow_mult_distr, !Rabs_mult, <- !RPow_abs, (Rabs_pos_eq t) by lra.
+  assert (HtK : t ^ K = t ^ k * t ^ (K - k)) by (rewrite <- pow_add; f_equal; lia).
+  rewrite HtK, Rmult_assoc.
+  apply Rmult_le_compat_r; [|apply int_pow_le, Hk].
+  apply Rmult_le_pos; apply pow_le; lra.
+Qed.
+
+Lemma spow_le e l k K :
+  (1 <= k <= K)%nat -> Forall (grid e) l -> spow k l * bpow radix2 e ^ (K - k) <= spow K l.
+Proof.
+  intros Hk. induction 1 as [|a l Ha _ IH]; [unfold spow, sumabs; cbn; lra|].
+  rewrite !spow_cons, Rmult_plus_distr_r. pose proof (grid_pow_le e a k K Hk Ha). lra.
+Qed.
+
+(* the K-th power bound implies every lower one (K e + 53 against k e + 53) *)
+Lemma spow_bound e l k K :
+  (1 <= k <= K)%nat -> Forall (grid e) l ->
+  spow K l < bpow radix2 (Z.of_nat K * e + 53) -> spow k l < bpow radix2 (Z.of_nat k * e + 53).
+Proof.
+  intros Hk HG Hb. pose proof (spow_le e l k K Hk HG) as H.
+  assert (Ht : 0 < bpow radix2 e ^ (K - k)) by (apply pow_lt, bpow_gt_0).
+  apply (Rmult_lt_reg_r (bpow radix2 e ^ (K - k))); [exact Ht|].
+  eapply Rle_lt_trans; [exact H|]. eapply Rlt_le_trans; [exact Hb|]. apply Req_le.
+  rewrite bpow_nat_mul, <- bpow_plus. f_equal. rewrite Nat2Z.inj_sub by lia. ring.
+Qed.
+
+Definition erange (K : nat) (e : Z) : Prop := (-1074 <= Z.of_nat K * e)%Z /\ (Z.of_nat K * e + 53 <= 1024)%Z.
+Lemma erange_le K k e : (1 <= k <= K)%nat -> erange K e -> erange k e.
+Proof.
+  unfold erange. intros Hk [H1 H2].
+  assert (Hz : (1 <= Z.of_nat k <= Z.of_nat K)%Z) by lia.
+  set (zk := Z.of_nat k) in *. set (zK := Z.of_nat K) in *. clearbody zk zK.
+  destruct (Z_le_gt_dec 0 e) as [He|He].
+  - assert (0 <= zk * e)%Z by (apply Z.mul_nonneg_nonneg; lia).
+    assert (zk * e <= zK * e)%Z by (apply Z.mul_le_mono_nonneg_r; lia). lia.
+  - assert (zK * e <= zk * e)%Z by (apply Z.mul_le_mono_nonpos_r; lia).
+    assert (zk * e <= 0)%Z by (apply Z.mul_nonneg_nonpos; lia). lia.
+Qed.
+
+(* ---- (2b) binary64: exact products and exact accumulation of grid points --------------------------- *)
+(* an exactly representable product below the overflow threshold is computed exactly and is finite *)
+Lemma mul_exact x y :
+  ffin x = true -> ffin y = true -> fmt64 (f2r x * f2r y) -> Rabs (f2r x * f2r y) < bpow radix2 1024 ->
+  ffin (x * y)%float = true /\ f2r (x * y)%float = f2r x * f2r y.
+Proof.
+  intros Hx Hy HF HB. rewrite ffin_equiv in *. unfold f2r in *. rewrite FP.mul_equiv.
+  pose proof (Bmult_correct FloatOps.prec FloatOps.emax FP.Hprec FP.Hmax mode_NE (FP.Prim2B x) (FP.Prim2B y)) as HC.
+  match type of HC with context [round ?a ?b ?c ?d] =>
+    assert (Hr : round a b c d = d) by exact (rnd64_id _ HF); rewrite Hr in HC end.
+  rewrite Rlt_bool_true in HC by exact HB.
+  destruct HC as (H1 & H2 & _). rewrite H2, Hx, Hy. split; [reflexivity|exact H1].
+Qed.
+
+Lemma mul_exact_grid a b x y :
+  (-1074 <= a + b)%Z -> (a + b + 53 <= 1024)%Z -> fgrid a x -> fgrid b y ->
+  Rabs (f2r x * f2r y) < bpow radix2 (a + b + 53) ->
+  fgrid (a + b) (x * y)%float /\ f2r (x * y)%float = f2r x * f2r y.
+Proof.
+  intros Hlo Hhi [Fx Gx] [Fy Gy] Hb.
+  destruct (mul_exact x y Fx Fy) as [H1 H2].
+  - apply (grid_fmt (a + b)); [exact Hlo|apply grid_mult; assumption|exact Hb].
+  - eapply Rlt_le_trans; [exact Hb|apply bpow_le; exact Hhi].
+  - split; [split; [exact H1|rewrite H2; apply grid_mult; assumption]|exact H2].
+Qed.
+
+(* the three products of `mom_add` / `mom_sub` for one grid element whose K-th power is in range *)
+Lemma elem_pows e K (v : float) :
+  (1 <= K)%nat -> erange K e -> fgrid e v -> Rabs (f2r v ^ K) < bpow radix2 (Z.of_nat K * e + 53) ->
+  let v2 := (v * v)%float in
+  ((2 <= K)%nat -> ffin v2 = true /\ f2r v2 = f2r v ^ 2) /\
+  ((3 <= K)%nat -> ffin (v2 * v)%float = true /\ f2r (v2 * v)%float = f2r v ^ 3) /\
+  ((4 <= K)%nat -> ffin (v2 * v2)%float = true /\ f2r (v2 * v2)%float = f2r v ^ 4).
+Proof.
+  intros HK HR Gv Hb v2. pose proof Gv as [Fv Gx]. set (x := f2r v) in *.
+  assert (HB : forall k, (1 <= k <= K)%nat -> Rabs (x ^ k) < bpow radix2 (Z.of_nat k * e + 53)).
+  { intros k Hk. pose proof (spow_bound e [x] k K Hk (Forall_cons _ Gx (Forall_nil _))) as H.
+    unfold spow, sumabs in H. cbn [map sumR fold_right] in H. rewrite !Rplus_0_r in H. apply H, Hb. }
+  assert (HE : forall k, (1 <= k <= K)%nat -> erange k e) by (intros k Hk; apply (erange_le K); assumption).
+  assert (P2 : (2 <= K)%nat -> fgrid (e + e) v2 /\ f2r v2 = x * x).
+  { intros H2. destruct (HE 2%nat ltac:(lia)) as [E1 E2]. pose proof (HB 2%nat ltac:(lia)) as B2.
+    apply mul_exact_grid; try assumption; try lia.
+    fold x. replace (e + e + 53)%Z with (Z.of_nat 2 * e + 53)%Z by lia. replace (x * x) with (x ^ 2) by ring. exact B2. }
+  split; [|split].
+  - intros H2. destruct (P2 H2) as [[F2 _] V2]. split; [exact F2|]. rewrite V2. ring.
+  - intros H3. destruct (P2 ltac:(lia)) as [G2 V2].
+    destruct (HE 3%nat ltac:(lia)) as [E1 E2]. pose proof (HB 3%nat ltac:(lia)) as B3.
+    destruct (mul_exact_grid (e + e) e v2 v) as [[F3 _] V3]; try assumption; try lia.
+    + rewrite V2. fold x. replace (e + e + e + 53)%Z with (Z.of_nat 3 * e + 53)%Z by lia.
+      replace (x * x * x) with (x ^ 3) by ring. exact B3.
+    + split; [exact F3|]. rewrite V3, V2. fold x. ring.
+  - intros H4. destruct (P2 ltac:(lia)) as [G2 V2].
+    destruct (HE 4%nat ltac:(lia)) as [E1 E2]. pose proof (HB 4%nat ltac:(lia)) as B4.
+    destruct (mul_exact_grid (e + e) (e + e) v2 v2) as [[F4 _] V4]; try assumption; try lia.
+    + rewrite V2. fold x. replace (e + e + (e + e) + 53)%Z with (Z.of_nat 4 * e + 53)%Z by lia.
+      replace (x * x * (x * x)) with (x ^ 4) by ring. exact B4.
+    + split; [exact F4|]. rewrite V4, V2. fold x. ring.
+Qed.
+
+(* one exact accumulation step: the new value is the k-th power sum of a list dominated by a list in range *)
+Lemma acc_core e K k (a q : float) (Lbig Lres : list R) :
+  erange K e -> (1 <= k <= K)%nat ->
+  Forall (grid e) Lbig -> spow K Lbig < bpow radix2 (Z.of_nat K * e + 53) ->
+  Forall (grid e) Lres -> spow k Lres <= spow k Lbig ->
+  ffin a = true -> ffin q = true -> f2r a + f2r q = psum k Lres ->
+  ffin (a + q)%float = true /\ f2r (a + q)%float = psum k Lres.
+Proof.
+  intros HR Hk GB HB GR Hle Fa Fq Hv.
+  destruct (erange_le K k e Hk HR) as [E1 E2].
+  pose proof (spow_bound e Lbig k K Hk GB HB) as Hb. pose proof (psum_le_spow k Lres) as Hp.
+  assert (Hlt : Rabs (psum k Lres) < bpow radix2 (Z.of_nat k * e + 53)) by lra.
+  rewrite <- Hv in *.
+  apply add_exact; try assumption.
+  - apply (grid_fmt (Z.of_nat k * e)); [exact E1|rewrite Hv; apply grid_psum, GR|exact Hlt].
+  - eapply Rlt_le_trans; [exact Hlt|apply bpow_le; exact E2].
+Qed.
+
+(* ---- (2c) the generic sliding invariant, with preservation required only on the windows of the run ---- *)
+Section SlidingOn.
+  Context {T St O : Type}.
+  Variable F : feat T St O.
+  Variable Abs : St -> list T -> Prop.
+  Variable Good : list T -> Prop.
+  Hypothesis Abs_init : Abs (f_init F) [].
+  Hypothesis Abs_pre : forall s l v, Good (l ++ [v]) -> Abs s l -> Abs (f_pre F s v) (l ++ [v]).
+  Hypothesis Abs_post : forall s x l, Good (x :: l) -> Abs s (x :: l) -> Abs (f_post F s (Some x)) l.
+  Hypothesis post_none : forall s, f_post F s None = s.
+  Variable w : nat.
+  Hypothesis Hw : (1 <= w)%nat.
+  Variable xs : list T.
+  Hypothesis Good_win : forall i, (i < length xs)%nat -> Good (win w i xs).
+
+  Let args := mapi (fun i v => (removed w xs i, v)) xs.
+
+  Lemma win_as_seg k : win w k xs = seg (k - (w - 1)) (S k) xs.
+  Proof. rewrite win_seg. unfold wstart. f_equal. lia. Qed.
+
+  Lemma state_after_abs_on k :
+    (k <= length xs)%nat ->
+    Abs (state_after (feat_cb F) (f_init F) (firstn k args)) (seg (k - (w - 1)) k xs).
+  Proof.
+    induction k as [|k IH]; intros Hk.
+    - rewrite Nat.sub_0_l, seg_nil. cbn. exact Abs_init.
+    - specialize (IH ltac:(lia)).
+      destruct (nth_error xs k) as [v|] eqn:Hv; [|apply nth_error_None in Hv; lia].
+      assert (Ha : nth_error args k = Some (removed w xs k, v)).
+      { unfold args. rewrite nth_error_mapi, Hv. reflexivity. }
+      rewrite (firstn_S_nth _ _ _ Ha), state_after_app. cbn [state_after feat_cb fst snd].
+      set (s := state_after (feat_cb F) (f_init F) (firstn k args)) in *.
+      pose proof (Good_win k ltac:(lia)) as HG. rewrite win_as_seg in HG.
+      assert (Hpre : Abs (f_pre F s v) (seg (k - (w - 1)) (S k) xs)).
+      { rewrite (@seg_snoc _ (k - (w - 1)) k xs v) in * by (try lia; exact Hv). apply Abs_pre; assumption. }
+      unfold removed. destruct (k <? w - 1)%nat eqn:E.
+      + apply Nat.ltb_lt in E. rewrite post_none.
+        replace (S k - (w - 1))%nat with (k - (w - 1))%nat by lia. exact Hpre.
+      + apply Nat.ltb_ge in E.
+        destruct (nth_error xs (k - (w - 1))) as [x|] eqn:Hx; [|apply nth_error_None in Hx; lia].
+        rewrite (@seg_cons _ (k - (w - 1)) (S k) xs x) in Hpre, HG by (try lia; exact Hx).
+        replace (S k - (w - 1))%nat with (S (k - (w - 1))) by lia.
+        apply Abs_post; assumption.
+  Qed.
+
+  Theorem sliding_emit_on body i v :
+    nth_error xs i = Some v ->
+    exists s, Abs s (win w i xs) /\ nth_error (ts_out F body w xs) i = Some (f_emit F s).
+  Proof.
+    intros Hv.
+    assert (Hi : (i < length xs)%nat) by (apply nth_error_Some; congruence).
+    exists (f_pre F (state_after (feat_cb F) (f_init F) (firstn i args)) v). split.
+    - pose proof (Good_win i Hi) as HG. rewrite win_as_seg in *.
+      rewrite (@seg_snoc _ (i - (w - 1)) i xs v) in * by (try lia; exact Hv).
+      apply Abs_pre; [exact HG|]. apply state_after_abs_on. lia.
+    - unfold ts_out. rewrite ts_run_iter by exact Hw. fold args.
+      rewrite (@run_nth _ _ _ (feat_cb F) (f_init F) args i (removed w xs i, v)).
+      + reflexivity.
+      + unfold args. rewrite nth_error_mapi, Hv. reflexivity.
+  Qed.
+End SlidingOn.
+
+(* ---- (2d) the moment accumulator at NumF64 on a grid ------------------------------------------------ *)
+Definition msk {A} (k : nat) (s : @mom A) : A :=
+  match k with 1%nat => m_s1 s | 2%nat => m_s2 s | 3%nat => m_s3 s | _ => m_s4 s end.
+
+(* the accumulator a holds EXACTLY the k-th power sum of the valid elements of l *)
+Definition facc (k : nat) (a : float) (l : list float) : Prop := ffin a = true /\ f2r a = psum k (rvals64 l).
+(* the state holds the count and the first K power sums of the window, exactly *)
+Definition mabs (K : nat) (s : @mom float) (l : list float) : Prop :=
+  m_n s = length (fvals l) /\ forall k, (1 <= k <= K)%nat -> facc k (msk k s) l.
+(* a window whose valid elements are on the grid 2^e and whose K-th absolute power sum is below 2^(K e + 53) *)
+Definition good (K : nat) (e : Z) (l : list float) : Prop :=
+  Forall (fgrid e) (fvals l) /\ spow K (rvals64 l) < bpow radix2 (Z.of_nat K * e + 53).
+
+Lemma Forall_fgrid_grid e fl : Forall (fgrid e) fl -> Forall (grid e) (map f2r fl).
+Proof. intros H. apply Forall_map. eapply Forall_impl; [|exact H]. intros a [_ Ha]. exact Ha. Qed.
+
+Lemma rvals64_single_valid v : not_none (H := IsNoneF64) v = true -> rvals64 [v] = [f2r v].
+Proof. intros E. unfold rvals64. rewrite fvals_single. unfold addop. rewrite E. reflexivity. Qed.
+Lemma rvals64_single_null v : not_none (H := IsNoneF64) v = false -> rvals64 [v] = [].
+Proof. intros E. unfold rvals64. rewrite fvals_single. unfold addop. rewrite E. reflexivity. Qed.
+
+Lemma k_cases k K : (1 <= k <= K)%nat -> (K <= 4)%nat -> k = 1%nat \/ k = 2%nat \/ k = 3%nat \/ k = 4%nat.
+Proof. lia. Qed.
+
+Section MomentGrid.
+  Variable K : nat.
+  Variable e : Z.
+  Hypothesis HK : (1 <= K <= 4)%nat.
+  Hypothesis HR : erange K e.
+
+  Lemma mabs_init : mabs K (mom0 (A := float)) [].
+  Proof.
+    split; [reflexivity|]. intros k Hk. split.
+    - destruct (k_cases k K Hk ltac:(lia)) as [-> | [-> | [-> | ->]]]; reflexivity.
+    - replace (msk k (mom0 (A := float))) with zero
+        by (destruct (k_cases k K Hk ltac:(lia)) as [-> | [-> | [-> | ->]]]; reflexivity).
+      rewrite f2r_zero. reflexivity.
+  Qed.
+
+  Lemma mabs_pre (s : @mom float) l v :
+    good K e (l ++ [v]) -> mabs K s l -> mabs K (mom_pre (DT := IsNoneF64) s v) (l ++ [v]).
+  Proof.
+    intros [HG HB] [Hn HA]. unfold mom_pre. rewrite fvals_app, fvals_single in HG. rewrite rvals64_app in HB.
+    destruct (not_none v) eqn:E.
+    - unfold addop in HG. rewrite E in HG. apply Forall_app in HG. destruct HG as [HGl HGv].
+      inversion HGv as [|? ? Gv _]; subst. rewrite (rvals64_single_valid v E) in HB.
+      set (L := rvals64 l) in *. set (x := f2r v) in *.
+      assert (GL : Forall (grid e) (L ++ [x])).
+      { apply Forall_app. split; [apply Forall_fgrid_grid, HGl|]. constructor; [exact (proj2 Gv)|constructor]. }
+      assert (HBx : Rabs (x ^ K) < bpow radix2 (Z.of_nat K * e + 53)).
+      { rewrite spow_app, spow_cons in HB. pose proof (spow_nonneg K L). pose proof (spow_nonneg K []). lra. }
+      destruct (elem_pows e K v ltac:(lia) HR Gv HBx) as (P2 & P3 & P4). cbv zeta in P2, P3, P4.
+      change (unwrap v) with v.
+      split.
+      + cbn [mom_add m_n]. rewrite fvals_app, fvals_single, app_length. unfold addop. rewrite E. cbn [length]. lia.
+      + intros k Hk. destruct (HA k Hk) as [Fa Va]. unfold facc. fold L in Va.
+        rewrite rvals64_app, (rvals64_single_valid v E). fold L. fold x.
+        destruct (k_cases k K Hk ltac:(lia)) as [-> | [-> | [-> | ->]]]; cbn [msk mom_add m_s1 m_s2 m_s3 m_s4] in *.
+        * apply (acc_core e K 1 _ _ (L ++ [x]) (L ++ [x])); try assumption; try lra; [exact (proj1 Gv)|].
+          rewrite psum_app, psum_single, Va. fold x. ring.
+        * destruct (P2 ltac:(lia)) as [F2 V2].
+          apply (acc_core e K 2 _ _ (L ++ [x]) (L ++ [x])); try assumption; try lra.
+          rewrite psum_app, psum_single, Va. change (nmul v v) with (v * v)%float. rewrite V2. reflexivity.
+        * destruct (P3 ltac:(lia)) as [F3 V3].
+          apply (acc_core e K 3 _ _ (L ++ [x]) (L ++ [x])); try assumption; try lra.
+          rewrite psum_app, psum_single, Va. change (nmul (nmul v v) v) with (v * v * v)%float. rewrite V3. reflexivity.
+        * destruct (P4 ltac:(lia)) as [F4 V4].
+          apply (acc_core e K 4 _ _ (L ++ [x]) (L ++ [x])); try assumption; try lra.
+          rewrite psum_app, psum_single, Va. change (nmul (nmul v v) (nmul v v)) with (v * v * (v * v))%float.
+          rewrite V4. reflexivity.
+    - assert (E1 : fvals (l ++ [v]) = fvals l)
+        by (rewrite fvals_app, fvals_single; unfold addop; rewrite E; apply app_nil_r).
+      assert (E2 : rvals64 (l ++ [v]) = rvals64 l)
+        by (rewrite rvals64_app, (rvals64_single_null v E); apply app_nil_r).
+      unfold mabs, facc. rewrite E1, E2. split; [exact Hn|exact HA].
+  Qed.
+
+  Lemma mabs_post (s : @mom float) x l :
+    good K e (x :: l) -> mabs K s (x :: l) -> mabs K (mom_post (DT := IsNoneF64) s (Some x)) l.
+  Proof.
+    change (x :: l) with ([x] ++ l). intros [HG HB] [Hn HA]. unfold mom_post.
+    rewrite fvals_app, fvals_single in HG, Hn. rewrite rvals64_app in HB.
+    destruct (not_none x) eqn:E.
+    - unfold addop in HG, Hn. rewrite E in HG, Hn. apply Forall_app in HG. destruct HG as [HGv HGl].
+      inversion HGv as [|? ? Gv _]; subst. rewrite (rvals64_single_valid x E) in HB.
+      set (L := rvals64 l) in *. set (y := f2r x) in *.
+      assert (GR : Forall (grid e) L) by apply Forall_fgrid_grid, HGl.
+      assert (GL : Forall (grid e) ([y] ++ L)) by (constructor; [exact (proj2 Gv)|exact GR]).
+      assert (HBx : Rabs (y ^ K) < bpow radix2 (Z.of_nat K * e + 53)).
+      { rewrite spow_app, spow_cons in HB. pose proof (spow_nonneg K L). pose proof (spow_nonneg K []). lra. }
+      assert (Hle : forall k, spow k L <= spow k ([y] ++ L)).
+      { intros k. rewrite spow_app, spow_cons. pose proof (Rabs_pos (y ^ k)). pose proof (spow_nonneg k []). lra. }
+      destruct (elem_pows e K x ltac:(lia) HR Gv HBx) as (P2 & P3 & P4). cbv zeta in P2, P3, P4.
+      change (unwrap x) with x.
+      split.
+      + cbn [mom_sub m_n]. rewrite Hn, app_length. cbn [length]. lia.
+      + intros k Hk. destruct (HA k Hk) as [Fa Va]. unfold facc. fold L.
+        rewrite rvals64_app, (rvals64_single_valid x E) in Va. fold L in Va. fold y in Va.
+        change ([y] ++ L) with (y :: L) in Va. rewrite psum_cons in Va.
+        destruct (k_cases k K Hk ltac:(lia)) as [-> | [-> | [-> | ->]]]; cbn [msk mom_sub m_s1 m_s2 m_s3 m_s4] in *.
+        * change (nsub (m_s1 s) x) with (m_s1 s - x)%float. rewrite sub_is_add_opp.
+          apply (acc_core e K 1 _ _ ([y] ++ L) L); try assumption; try apply Hle.
+          -- rewrite ffin_opp. exact (proj1 Gv).
+          -- rewrite f2r_opp, Va. fold y. ring.
+        * destruct (P2 ltac:(lia)) as [F2 V2].
+          change (nsub (m_s2 s) (nmul x x)) with (m_s2 s - x * x)%float. rewrite sub_is_add_opp.
+          apply (acc_core e K 2 _ _ ([y] ++ L) L); try assumption; try apply Hle.
+          -- rewrite ffin_opp. exact F2.
+          -- rewrite f2r_opp, Va, V2. fold y. ring.
+        * destruct (P3 ltac:(lia)) as [F3 V3].
+          change (nsub (m_s3 s) (nmul (nmul x x) x)) with (m_s3 s - x * x * x)%float. rewrite sub_is_add_opp.
+          apply (acc_core e K 3 _ _ ([y] ++ L) L); try assumption; try apply Hle.
+          -- rewrite ffin_opp. exact F3.
+          -- rewrite f2r_opp, Va, V3. fold y. ring.
+        * destruct (P4 ltac:(lia)) as [F4 V4].
+          change (nsub (m_s4 s) (nmul (nmul x x) (nmul x x))) with (m_s4 s - x * x * (x * x))%float.
+          rewrite sub_is_add_opp.
+          apply (acc_core e K 4 _ _ ([y] ++ L) L); try assumption; try apply Hle.
+          -- rewrite ffin_opp. exact F4.
+          -- rewrite f2r_opp, Va, V4. fold y. ring.
+    - unfold addop in Hn. rewrite E in Hn. cbn [app] in Hn.
+      split; [exact Hn|]. intros k Hk. destruct (HA k Hk) as [Fa Va]. split; [exact Fa|].
+      rewrite Va, rvals64_app, (rvals64_single_null x E). reflexivity.
+  Qed.
+End MomentGrid.
+
+(* ---- (2e) the runs: model(float) state = model(option R) state -------------------------------------- *)
+Lemma Forall_fvals_seg (P : float -> Prop) a b xs : Forall P (fvals xs) -> Forall P (fvals (seg a b xs)).
+Proof.
+  intros H. unfold seg. rewrite <- (firstn_skipn a xs), fvals_app in H. apply Forall_app in H. destruct H as [_ H].
+  rewrite <- (firstn_skipn (b - a) (skipn a xs)), fvals_app in H. apply Forall_app in H. exact (proj1 H).
+Qed.
+
+(* every window of the run is on the grid and in range: the premise of everything below (window-local) *)
+Definition windows_in_range (K : nat) (e : Z) (w : nat) (xs : list float) : Prop :=
+  forall i, (i < length xs)%nat -> spow K (rvals64 (win w i xs)) < pow2 (Z.of_nat K * e + 53).
+
+(* the float state behind every output holds the count and the first K power sums of the window EXACTLY *)
+Theorem moment_state_float_exact K e (emit : @mom float -> float) w body xs :
+  (1 <= K <= 4)%nat -> erange K e -> (1 <= w)%nat ->
+  Forall (fgrid e) (fvals xs) -> windows_in_range K e w xs ->
+  forall i v, nth_error xs i = Some v ->
+    exists s, mabs K s (win w i xs) /\
+              nth_error (ts_out (mom_feat (NA := NumF64) (DT := IsNoneF64) emit) body w xs) i = Some (emit s).
+Proof.
+  intros HK HR Hw HG HW i v Hv.
+  apply (sliding_emit_on (mom_feat (NA := NumF64) (DT := IsNoneF64) emit) (mabs K) (good K e)) with (v := v);
+    try assumption.
+  - apply mabs_init. exact HK.
+  - intros s l x. apply mabs_pre; assumption.
+  - intros s x l. apply mabs_post; assumption.
+  - reflexivity.
+  - intros j Hj. split; [rewrite win_seg; apply Forall_fvals_seg, HG|apply HW, Hj].
+Qed.
+
+Lemma fx_finite a : ffin a = true -> fx a = Some (f2r a).
+Proof. intros H. unfold fx. rewrite (ffin_not_nan _ H). reflexivity. Qed.
+
+(* ... and so it is the image of the state of the exact run on the same series *)
+Theorem moment_state_exact_on_grid K e (emit64 : @mom float -> float) (emitX : @mom XR -> XR) w body xs :
+  (1 <= K <= 4)%nat -> erange K e -> (1 <= w)%nat ->
+  Forall (fgrid e) (fvals xs) -> windows_in_range K e w xs ->
+  forall i v, nth_error xs i = Some v ->
+    exists (s64 : @mom float) (sX : @mom XR),
+      nth_error (ts_out (mom_feat (NA := NumF64) (DT := IsNoneF64) emit64) body w xs) i = Some (emit64 s64) /\
+      nth_error (ts_out (mom_feat (NA := NumXR) (DT := IsNoneXR) emitX) body w (map fx xs)) i = Some (emitX sX) /\
+      m_n s64 = m_n sX /\ (forall k, (1 <= k <= K)%nat -> fx (msk k s64) = msk k sX) /\
+      mom_abs sX (map fx (win w i xs)).
+Proof.
+  intros HK HR Hw HG HW i v Hv.
+  destruct (moment_state_float_exact K e emit64 w body xs HK HR Hw HG HW i v Hv) as (s64 & [Hn HA] & Ho).
+  destruct (mom_state_tracks_window emitX body w (map fx xs) Hw) as (outx & Hrun & _ & Hout).
+  destruct (Hout i (fx v)) as (sX & HX & HoX); [rewrite nth_error_map, Hv; reflexivity|].
+  exists s64, sX. split; [exact Ho|]. split; [unfold ts_out; rewrite Hrun; exact HoX|].
+  rewrite win_map in HX. pose proof HX as (Xn & X1 & X2 & X3 & X4).
+  unfold nv in Xn. rewrite valid_map_fx in Xn, X1, X2, X3, X4.
+  split; [|split; [|exact HX]].
+  - rewrite Hn, Xn. unfold rvals64. rewrite map_length. reflexivity.
+  - intros k Hk. destruct (HA k Hk) as [Fa Va]. rewrite (fx_finite _ Fa), Va.
+    destruct (k_cases k K Hk ltac:(lia)) as [-> | [-> | [-> | ->]]]; cbn [msk]; symmetry; assumption.
+Qed.
+
+(* all four power sums: the exact run's state IS the image of the float run's state *)
+Definition mom_fx (s : @mom float) : @mom XR :=
+  {| m_n := m_n s; m_s1 := fx (m_s1 s); m_s2 := fx (m_s2 s); m_s3 := fx (m_s3 s); m_s4 := fx (m_s4 s) |}.
+
+Corollary moment_state_exact_on_grid_all e (emit64 : @mom float -> float) (emitX : @mom XR -> XR) w body xs :
+  erange 4 e -> (1 <= w)%nat -> Forall (fgrid e) (fvals xs) -> windows_in_range 4 e w xs ->
+  forall i v, nth_error xs i = Some v ->
+    exists s64 : @mom float,
+      nth_error (ts_out (mom_feat (NA := NumF64) (DT := IsNoneF64) emit64) body w xs) i = Some (emit64 s64) /\
+      nth_error (ts_out (mom_feat (NA := NumXR) (DT := IsNoneXR) emitX) body w (map fx xs)) i
+      = Some (emitX (mom_fx s64)).
+Proof.
+  intros HR Hw HG HW i v Hv.
+  destruct (moment_state_exact_on_grid 4 e emit64 emitX w body xs ltac:(lia) HR Hw HG HW i v Hv)
+    as (s64 & sX & H1 & H2 & Hn & Hk & _).
+  exists s64. split; [exact H1|]. rewrite H2. do 2 f_equal.
+  destruct sX as [n a1 a2 a3 a4]. unfold mom_fx. cbn [m_n] in Hn.
+  pose proof (Hk 1%nat ltac:(lia)) as K1. pose proof (Hk 2%nat ltac:(lia)) as K2.
+  pose proof (Hk 3%nat ltac:(lia)) as K3. pose proof (Hk 4%nat ltac:(lia)) as K4.
+  cbn [msk m_s1 m_s2 m_s3 m_s4] in K1, K2, K3, K4. rewrite Hn, K1, K2, K3, K4. reflexivity.
+Qed.
+
+(* the rolling SUM under the window-local first-power premise (Proofs/RoundSum.v needs the whole history in range) *)
+Lemma fx_emit_sum mp (s64 : @mom float) (sX : @mom XR) :
+  m_n s64 = m_n sX -> fx (m_s1 s64) = m_s1 sX -> fx (emit_sum mp s64) = emit_sum mp sX.
+Proof. intros Hn H1. unfold emit_sum. rewrite Hn. destruct (mp <=? m_n sX); [exact H1|reflexivity]. Qed.
+
+Theorem ts_vsum_f64_exact_on_grid_local e w mp body xs :
+  erange 1 e -> (1 <= w)%nat -> Forall (fgrid e) (fvals xs) -> windows_in_range 1 e w xs ->
+  map fx (ts_out (ts_vsum64 w mp) body w xs)
+  = ts_out (ts_vsum_f (NA := NumXR) (DT := IsNoneXR) w mp) body w (map fx xs).
+Proof.
+  intros HR Hw HG HW. apply nth_error_ext. intros i. rewrite nth_error_map.
+  destruct (nth_error xs i) as [v|] eqn:Hv.
+  - destruct (moment_state_exact_on_grid 1 e (emit_sum (mp_eff mp w 0)) (emit_sum (mp_eff mp w 0)) w body xs
+                ltac:(lia) HR Hw HG HW i v Hv) as (s64 & sX & H1 & H2 & Hn & Hk & _).
+    change (mom_feat (emit_sum (mp_eff mp w 0))) with (ts_vsum64 w mp) in H1.
+    change (mom_feat (emit_sum (mp_eff mp w 0))) with (ts_vsum_f (NA := NumXR) (DT := IsNoneXR) w mp) in H2.
+    rewrite H1, H2. cbn [option_map]. f_equal. apply fx_emit_sum; [exact Hn|exact (Hk 1%nat ltac:(lia))].
+  - apply nth_error_None in Hv.
+    destruct (ts_run_total (ts_vsum64 w mp) w xs body Hw) as (outf & Hrunf & Hlenf).
+    destruct (ts_run_total (ts_vsum_f (NA := NumXR) (DT := IsNoneXR) w mp) w (map fx xs) body Hw) as (outx & Hrunx & Hlenx).
+    unfold ts_out. rewrite Hrunf, Hrunx.
+    replace (nth_error outf i) with (@None float) by (symmetry; apply nth_error_None; lia).
+    symmetry. apply nth_error_None. rewrite Hlenx, map_length. exact Hv.
+Qed.
+
+(* ---- the premise from a magnitude bound: |x| <= B and w * B^K < 2^(K e + 53) ---------------------------- *)
+Lemma spow_le_len K L B : Forall (fun x => Rabs x <= B) L -> spow K L <= INR (length L) * B ^ K.
+Proof.
+  induction 1 as [|a L Ha _ IH]; [unfold spow, sumabs; cbn; lra|].
+  rewrite spow_cons. change (length (a :: L)) with (S (length L)). rewrite S_INR, <- RPow_abs.
+  pose proof (pow_incr (Rabs a) B K (conj (Rabs_pos a) Ha)). lra.
+Qed.
+
+Lemma windows_in_range_of_bound K e w xs B :
+  (1 <= w)%nat -> Forall (fun y => Rabs (f2r y) <= B) (fvals xs) ->
+  INR w * B ^ K < pow2 (Z.of_nat K * e + 53) -> windows_in_range K e w xs.
+Proof.
+  intros Hw HB Hlt i Hi.
+  assert (HBw : Forall (fun x => Rabs x <= B) (rvals64 (win w i xs))).
+  { unfold rvals64. apply Forall_map. rewrite win_seg. apply (Forall_fvals_seg (fun y => Rabs (f2r y) <= B)), HB. }
+  pose proof (spow_le_len K _ B HBw) as H1.
+  destruct (rvals64 (win w i xs)) as [|a L] eqn:EL.
+  - unfold spow, sumabs. cbn [map sumR fold_right]. apply bpow_gt_0.
+  - assert (HB0 : 0 <= B) by (inversion HBw as [|? ? Ha _]; subst; pose proof (Rabs_pos a); lra).
+    assert (Hlen : (length (a :: L) <= w)%nat).
+    { rewrite <- EL. unfold rvals64. rewrite map_length.
+      pose proof (length_fvals_le (win w i xs)). pose proof (win_length_le w i xs Hw). lia. }
+    apply le_INR in Hlen. pose proof (pow_le B K HB0) as HBK.
+    eapply Rle_lt_trans; [exact H1|]. eapply Rle_lt_trans; [|exact Hlt]. apply Rmult_le_compat_r; assumption.
+Qed.
